@@ -202,6 +202,35 @@ let render_shots target (shots : msg_c outcome list list) (codes : n list list) 
     | _ -> [] in
   all shots codes
 
+(* ---------- time: think time of scenario steps, latency of the target's answers ---------- *)
+
+(* fl=p<c>[+<ms>].…  -> latency (ns) of the answer to the i-th call the target receives *)
+let plan_latencies (opts : string list) : string array =
+  List.fold_left (fun acc o ->
+    if String.length o >= 4 && String.sub o 0 4 = "fl=p" then
+      Array.of_list (List.map (fun slot -> match String.split_on_char '+' slot with [_; ms] -> ms | _ -> "0")
+                       (split '.' (String.sub o 4 (String.length o - 4))))
+    else acc) [||] opts
+
+let latency_of (lat : string array) : msg_c sent list -> msg_c sent -> z =
+  fun hist _ -> let i = List.length hist in if i < Array.length lat then ns_of_ms lat.(i) else ns_of_ms "0"
+
+(* a step of a scenario's requests list: idx | idx~ms | idx^ms *)
+let parse_scen_step (s : string) : int * string =
+  let cut c = match String.index_opt s c with
+    | Some i -> Some (int_of_string (String.sub s 0 i), String.sub s (i + 1) (String.length s - i - 1))
+    | None -> None in
+  match cut '~' with Some x -> x | None -> (match cut '^' with Some x -> x | None -> (int_of_string s, "0"))
+
+(* the deadline scope of the guns as re-read from the source (Gen/GrpcDialGen.v) *)
+let scope : dscope = scope_or_default (deadline_scope gen_timeout_sites (List.map fst gen_invoke_call_options))
+
+let render_tsteps (shots : msg_c tstep list list) : string list list =
+  List.map (List.map (fun (c, a) ->
+    match a with
+    | None -> string_of_n c ^ ";-"
+    | Some a -> string_of_n c ^ ";" ^ call_key a.a_call ^ "/" ^ timeout_s a.a_budget ^ "/" ^ string_of_n a.a_status)) shots
+
 let refl_of (evs : msg_c wevent list) : string =
   match List.filter_map (fun e -> match e with WReflect md -> Some (render_md md) | WCall _ -> None) evs with
   | [] -> "none"
@@ -230,11 +259,20 @@ let rec predict (c : string) (obs : string) : string * string * bool =
         let items = split_blank obs_main in
         let observed = observed_calls (List.concat_map (fun it -> match String.split_on_char ';' it with [_; cs] -> String.split_on_char '&' cs | _ -> []) items) in
         let target = target_of observed in
-        let render (evs, rs) =
-          let its = List.concat (render_shots target [List.map (fun r -> r.r_out) rs] [List.map (fun r -> r.r_code) rs]) in
+        let lat = plan_latencies opts in
+        let timed = Array.exists (fun x -> x <> "0") lat in
+        let latency = latency_of lat in
+        let render_with (as_model : bool) (evs, rs) =
+          let os = List.map (fun r -> r.r_out) rs in
+          let its =
+            if timed then
+              List.concat (render_tsteps (if as_model then json_timed grpc_code target latency scope timeout os
+                                          else json_timed_spec grpc_code target latency os))
+            else List.concat (render_shots target [os] [List.map (fun r -> r.r_code) rs]) in
           (its, refl_of evs) in
+        let render = render_with false in
         let line (its, refl) = String.concat " " its ^ " refl=" ^ refl in
-        let modl = render (json_session shortest_dec grpc_code target policy ninst timeout rm es) in
+        let modl = render_with true (json_session shortest_dec grpc_code target policy ninst timeout rm es) in
         let want = render (json_session_spec grpc_code target (fun p -> p) timeout rm es) in
         (* the specification with the known float64 family factored out *)
         let hyb = render (json_session_spec grpc_code target (reencode_guarded shortest_dec) timeout rm es) in
@@ -291,8 +329,13 @@ let rec predict (c : string) (obs : string) : string * string * bool =
               cd_meta = parse_meta meta; cd_payload = bytes_of_field payload; cd_pp = (pp = "1") }
         | _ -> failwith "def") (split '|' defs) in
       let scens = List.map (fun s -> match String.split_on_char ':' s with
-        | [name; idx] -> (bytes_of_field name, List.map (fun i -> nat_of_int (int_of_string i)) (split '.' idx))
+        | [name; idx] -> (bytes_of_field name, List.map parse_scen_step (split '.' idx))
         | _ -> failwith "scen") (split '|' scens) in
+      let scen_sleeps = List.map (fun (_, sts) -> List.map (fun (_, ms) -> ns_of_ms ms) sts) scens in
+      let lat = plan_latencies opts in
+      let timed = Array.exists (fun x -> x <> "0") lat || List.exists (fun (_, sts) -> List.exists (fun (_, ms) -> ms <> "0") sts) scens in
+      let latency = latency_of lat in
+      let scens = List.map (fun (nm, sts) -> (nm, List.map (fun (i, _) -> nat_of_int i) sts)) scens in
       let timeout = ns_of_ms tmo in
       let shots = split '#' obs_main in
       let items = List.concat_map (split '|') shots in
@@ -304,8 +347,12 @@ let rec predict (c : string) (obs : string) : string * string * bool =
       let (h1, m) = scen_model users defs scens h0 (sguns_of (nat_of_int (int_of_string (strip_r ninst))) timeout) O O order in
       let sp = scen_spec users defs scens timeout h0 O O order in
       let refl_want = refl_of (scen_warm_up timeout rm) in
-      let want = render sp (scen_codes_spec grpc_code target sp) in
-      let modl = render m (snd (scen_codes grpc_code target policy m)) in
+      let render_t (x : msg_c tstep list list) : string list =
+        List.map (fun its -> if its = [] then "none" else String.concat "|" its) (render_tsteps x) in
+      let want = if timed then render_t (scen_timed_spec grpc_code target latency sp)
+                 else render sp (scen_codes_spec grpc_code target sp) in
+      let modl = if timed then render_t (scen_timed grpc_code target latency scope timeout scen_sleeps m)
+                 else render m (snd (scen_codes grpc_code target policy m)) in
       let ok = (String.concat "#" want = obs_main) && refl_want = refl_obs in
       let why = if ok then "" else if refl_want <> refl_obs then "scen:shot0:reflection-metadata" else begin
         (* locate the first differing step *)
@@ -319,7 +366,7 @@ let rec predict (c : string) (obs : string) : string * string * bool =
       end in
       let heap_note = if h1 = h0 then "" else " heap-changed" in
       (String.concat "#" modl ^ heap_note ^ " refl=" ^ refl_want, verdict ok why,
-       List.length order > 1 && List.exists (fun d -> d.cd_meta <> []) defs || rm <> [] || has_faults opts)
+       List.length order > 1 && List.exists (fun d -> d.cd_meta <> []) defs || rm <> [] || has_faults opts || timed)
   | _ -> ("unknown-case", "BAD:unknown-case", false)
 
 let () = run_cases predict
